@@ -1460,6 +1460,13 @@ func corpus() []cfgCase {
 			"access-list dmz_in extended permit udp object-group g2 any4\naccess-group dmz_in in interface dmz\n",
 			"object-group network g2\n network-object 10.3.3.0 255.255.255.0\n network-object host 10.5.5.5\n network-object 10.6.0.0 255.255.0.0\n"+
 				"access-list dmz_in extended deny ip any4 host 10.1.1.2\naccess-list dmz_in extended permit udp object-group g2 any4\naccess-group dmz_in in interface dmz\n"),
+		// F-C01c: a group equalised for a line that is then replaced (second reference needed by an unknown interface) stays needed
+		mk("interface Ethernet0/0\n nameif inside\ninterface Ethernet0/1\n nameif dmz\n"+
+			"object-group network g0\n network-object host 10.1.1.1\nobject-group network g0-DRC-9\n network-object host 10.1.1.1\nobject-group network g2\n network-object host 10.4.4.4\n"+
+			"access-list inside_in extended deny udp object-group g0-DRC-9 object-group g2 eq 53\naccess-list inside_in extended permit udp object-group g0 any4 eq 25\n"+
+			"access-list dmz_acl extended permit tcp object-group g2 any4 eq 22\naccess-group inside_in in interface inside\naccess-group dmz_acl in interface dmz\n",
+			"object-group network g0\n network-object host 10.1.1.1\nobject-group network g2\n network-object host 10.4.4.4\n"+
+				"access-list inside_in extended deny udp object-group g0 object-group g2 eq 53\naccess-list inside_in extended permit udp object-group g0 any4 eq 25\naccess-group inside_in in interface inside\n"),
 		// F-C01b: two identical groups on the device, one left over
 		mk(intf+"object-group network oldg0\n network-object host 10.1.1.1\nobject-group network g0-DRC-7\n network-object host 10.1.1.1\n"+
 			"access-list inside_in extended permit tcp object-group oldg0 any4 eq 22\naccess-group inside_in in interface inside\n",
